@@ -42,6 +42,8 @@ var c11BestEffort = []BestEffort{
 	{Func: "(*db.DatabaseCollectionWithUser).updateAndReturnDoc", Callee: "getAttachmentIDsForLeafRevisions", Reason: "failure only disables obsolete-attachment removal for this write (skipObsoleteAttachmentsRemoval)"},
 	{Func: "(*db.DatabaseCollectionWithUser).updateAndReturnDoc", Callee: "releaseSequence", Reason: relNote},
 	{Func: "(*db.DatabaseContext).UpdatePrincipal", Callee: "releaseSequence", Reason: relNote},
+	{Func: "(*db.DatabaseCollectionWithUser).invalidatePurgedDocGrantees", Callee: "nextSequence", Reason: "post-commit (the purge has happened) stamp for the grantees' invalidation; on failure the purged document's own sequence is used instead and the condition is logged"},
+	{Func: "(*db.DatabaseCollectionWithUser).invalidatePurgedDocGrantees", Callee: "releaseSequence", Reason: relNote},
 	{Func: "(*db.DatabaseContext).assignSequence", Callee: "releaseSequence", Reason: relNote},
 	{Func: "(*db.DatabaseContext).DeleteRole", Callee: "releaseSequence", Reason: relNote},
 	{Func: "(*db.sequenceAllocator).nextSequenceGreaterThan", Callee: "releaseSequenceRange", Reason: relNote},
